@@ -9,8 +9,9 @@ Overview
   load steps    steps_cover, steps_ordered, steps_never_fail
   one mapping   fields_lookups_partition (full strength), fields_listed_once,
                 step_names_injective_refuted
-  whole file    mapping_entries, after_sound, after_sound_single
-  totality      premapping_total, mapping_total_refuted (D14), mapping_errors, mapping_total_partial
+  whole file    mapping_entries, entries_sfObject, after_sound, after_sound_single,
+                after_sound_property (the property's ordering clause, verbatim)
+  totality      premapping_total, mapping_errors, mapping_total (full; D14 repaired by 7f47b5f)
   continuation  mapping_continuation_invariant (repaired access kind), mapping_continuation_invariant_partial,
                 old behaviour: continuation_drops_saved, mapping_continuation_invariant_refuted_for_getattr
 -/
@@ -224,31 +225,49 @@ theorem mapping_entries (tables : List TableInfo) (deps : List Dep) (decls : Lis
   obtain ⟨new, hnew, hf⟩ := mappingsOfSteps_spec deps steps steps [] ms (by simpa using hnd) hm
   simp only [List.nil_append] at hnew
   subst hnew
-  exact forall2_comp hf (addAfterFrom_same ms ms 0 out hafter)
+  subst hafter
+  exact forall2_comp hf (addAfterFrom_same ms ms 0)
 
-/-- **After-directive soundness.** In a successfully generated mapping, for the lookup `l` of the
-    entry at position `i` (targets named `PersonContact` excepted, as coded): the target object has a
-    first step `fi` and a last step named `ln`, and either the first step comes strictly earlier or
-    the lookup carries `after: ln`. Self lookups are included (`fi = i` forces the directive). -/
+/-- every entry loads the object of its table (`PersonContact` rows go into `Contact`) -/
+theorem entries_sfObject (tables : List TableInfo) (deps : List Dep) (decls : List Decl)
+    (out : List (String × Mapping)) (h : mappingFromRecipe tables deps decls = .ok out) :
+    ∀ p ∈ out, p.2.sfObject = sfObjectOf p.2.table := by
+  obtain ⟨order, steps, ms, hpre, hafter⟩ := mappingFromRecipe_ok tables deps decls out h
+  obtain ⟨_, _, hm⟩ := preMapping_ok tables deps decls order steps ms hpre
+  subst hafter
+  intro p hp
+  obtain ⟨q, hq, hsame⟩ := forall2_mem_right (addAfterFrom_same ms ms 0) p hp
+  rcases mappingsOfSteps_mem deps steps steps [] ms hm q hq with hnil | ⟨s, _, hs⟩
+  · exact absurd hnil List.not_mem_nil
+  · obtain ⟨_, _, _, hso, htab, _, _⟩ := mappingOfStep_ok deps steps s q hs
+    rw [hsame.2.1, hsame.2.2.1, hso, htab]
+
+/-- **After-directive soundness (general form).** In a generated mapping, for the lookup `l` of the
+    entry at position `i` (targets named `PersonContact` excepted, as coded): either no entry loads
+    the target object at all (e.g. a hidden `__` table) and the lookup carries no `after:`, or the
+    target object has a first entry `fi` and a last entry named `ln`, and `fi < i` or the lookup
+    carries `after: ln`. Self lookups are included (`fi = i` forces the directive). -/
 theorem after_sound (tables : List TableInfo) (deps : List Dep) (decls : List Decl)
     (out : List (String × Mapping)) (h : mappingFromRecipe tables deps decls = .ok out)
     (i : Nat) (p : String × Mapping) (hp : out[i]? = some p) (l : Lookup) (hl : l ∈ p.2.lookups)
     (hpc : l.table ≠ "PersonContact") :
-    ∃ fi ln, firstInstance out l.table = some fi ∧ lastStepName out l.table = some ln ∧
-      (fi < i ∨ l.after = some ln) := by
+    ((∀ q ∈ out, q.2.sfObject ≠ l.table) ∧ l.after = none) ∨
+      ∃ fi ln, firstInstance out l.table = some fi ∧ lastStepName out l.table = some ln ∧
+        (fi < i ∨ l.after = some ln) := by
   obtain ⟨order, steps, ms, hpre, hafter⟩ := mappingFromRecipe_ok tables deps decls out h
   obtain ⟨_, _, hm⟩ := preMapping_ok tables deps decls order steps ms hpre
-  have hproj := addAfterFrom_proj ms ms 0 out hafter
-  have hspec := addAfterFrom_spec ms ms 0 out hafter i
+  subst hafter
+  have hproj : (addAfterStatements ms).map proj = ms.map proj := addAfterFrom_proj ms ms 0
+  have hspec : (addAfterStatements ms)[i]? = _ := addAfterFrom_spec ms ms 0 i
+  rw [hspec] at hp
   cases hq : ms[i]? with
-  | none => rw [hspec.1 hq] at hp; exact absurd hp (by simp)
+  | none => rw [hq] at hp; exact absurd hp (by simp)
   | some q =>
-    obtain ⟨ls, hls, ho⟩ := hspec.2 q hq
-    rw [ho] at hp
-    injection hp with hp
+    rw [hq] at hp
+    simp only [Option.map_some, Option.some.injEq] at hp
     subst hp
-    simp only at hl
-    obtain ⟨l0, hl0, hl0l⟩ := forall2_mem_right (addAfterLookups_spec ms (0 + i) _ _ hls) l hl
+    simp only [List.mem_map] at hl
+    obtain ⟨l0, hl0, hl0l⟩ := hl
     -- the lookup had no `after` before the post-process
     have hq_mem : q ∈ ms := List.mem_of_getElem? hq
     have hnone : l0.after = none := by
@@ -257,25 +276,35 @@ theorem after_sound (tables : List TableInfo) (deps : List Dep) (decls : List De
       · obtain ⟨_, _, _, _, _, _, hlk⟩ := mappingOfStep_ok deps steps s q hs
         rw [hlk] at hl0
         exact (lookupsOf_mem deps s.table s.fields l0 hl0).2.2
-    obtain ⟨_, htab, hmain⟩ := addAfterLookup_spec ms (0 + i) l0 l hl0l
+    obtain ⟨_, htab, hmain⟩ := addAfterLookup_spec ms (0 + i) l0
+    rw [hl0l] at htab hmain
     rw [htab] at hpc
-    obtain ⟨fi, ln, hfi, hln, _, hres⟩ := hmain hpc
-    refine ⟨fi, ln, ?_, ?_, ?_⟩
-    · rw [firstInstance_congr out ms hproj, htab]; exact hfi
-    · rw [lastStepName_congr out ms hproj, htab]; exact hln
-    · have := hres hnone
-      simpa using this
+    rcases hmain hpc with ⟨hnoidx, hsame⟩ | ⟨fi, ln, hfi, hln, hres⟩
+    · left
+      refine ⟨?_, by rw [hsame]; exact hnone⟩
+      rw [htab]
+      rcases hnoidx with h1 | h1
+      · apply (firstInstance_none _ l0.table).mp
+        rw [firstInstance_congr _ ms hproj]; exact h1
+      · apply (lastStepName_none _ l0.table).mp
+        rw [lastStepName_congr _ ms hproj]; exact h1
+    · right
+      refine ⟨fi, ln, ?_, ?_, ?_⟩
+      · rw [firstInstance_congr _ ms hproj, htab]; exact hfi
+      · rw [lastStepName_congr _ ms hproj, htab]; exact hln
+      · simpa using hres hnone
 
-/-- **The property's clause.** If the target object of a lookup is loaded by a single entry `j`,
+/-- **Ordering, by loaded object.** If the target object of a lookup is loaded by a single entry `j`,
     that entry comes strictly earlier or the lookup carries `after:` naming it. -/
 theorem after_sound_single (tables : List TableInfo) (deps : List Dep) (decls : List Decl)
     (out : List (String × Mapping)) (h : mappingFromRecipe tables deps decls = .ok out)
     (i : Nat) (p : String × Mapping) (hp : out[i]? = some p) (l : Lookup) (hl : l ∈ p.2.lookups)
     (hpc : l.table ≠ "PersonContact")
-    (j : Nat) (pj : String × Mapping) (hj : out[j]? = some pj)
+    (j : Nat) (pj : String × Mapping) (hj : out[j]? = some pj) (hsf : pj.2.sfObject = l.table)
     (huniq : ∀ j' p', out[j']? = some p' → p'.2.sfObject = l.table → j' = j) :
     j < i ∨ l.after = some pj.1 := by
-  obtain ⟨fi, ln, hfi, hln, hres⟩ := after_sound tables deps decls out h i p hp l hl hpc
+  rcases after_sound tables deps decls out h i p hp l hl hpc with ⟨hno, _⟩ | ⟨fi, ln, hfi, hln, hres⟩
+  · exact absurd hsf (hno pj (List.mem_of_getElem? hj))
   -- the first instance is `j`
   have hfij : fi = j := by
     unfold firstInstance at hfi
@@ -299,6 +328,29 @@ theorem after_sound_single (tables : List TableInfo) (deps : List Dep) (decls : 
   subst hfij
   rw [← hlnj]
   exact hres
+
+/-- **Ordering, exactly as the property states it**: *for every lookup whose target table is loaded
+    by a single step, either that step comes earlier or the lookup carries an `after:` directive naming
+    it.* (`hnopc`: the mapping has no `PersonContact` table — those rows are loaded into `Contact`, the
+    one case in which "table" and "loaded object" differ; `after_sound_single` covers it.) -/
+theorem after_sound_property (tables : List TableInfo) (deps : List Dep) (decls : List Decl)
+    (out : List (String × Mapping)) (h : mappingFromRecipe tables deps decls = .ok out)
+    (i : Nat) (p : String × Mapping) (hp : out[i]? = some p) (l : Lookup) (hl : l ∈ p.2.lookups)
+    (j : Nat) (pj : String × Mapping) (hj : out[j]? = some pj) (hjt : pj.2.table = l.table)
+    (huniq : ∀ j' p', out[j']? = some p' → p'.2.table = l.table → j' = j)
+    (hnopc : ∀ p' ∈ out, p'.2.table ≠ "PersonContact") :
+    j < i ∨ l.after = some pj.1 := by
+  have hso : ∀ p' ∈ out, p'.2.sfObject = p'.2.table := by
+    intro p' hp'
+    rw [entries_sfObject tables deps decls out h p' hp']
+    simp [sfObjectOf, hnopc p' hp']
+  have hpjm : pj ∈ out := List.mem_of_getElem? hj
+  have hpc : l.table ≠ "PersonContact" := by rw [← hjt]; exact hnopc pj hpjm
+  apply after_sound_single tables deps decls out h i p hp l hl hpc j pj hj
+  · rw [hso pj hpjm]; exact hjt
+  · intro j' p' hj' hs'
+    apply huniq j' p' hj'
+    rw [← hso p' (List.mem_of_getElem? hj')]; exact hs'
 
 -- non-vacuity: a cycle between A and B; B has two steps, A one
 example : mappingFromRecipe
@@ -327,71 +379,45 @@ theorem premapping_total (tables : List TableInfo) (deps : List Dep) (decls : Li
     exact ⟨s.table, he⟩
   | ok ms => rw [hm] at h; simp at h
 
-/-
-The full statement `mapping_total : ∃ out, mappingFromRecipe tables deps decls = .ok out` (for
-summaries without two record-type columns) is FALSE of the code (D14): a visible field that holds a
-reference to a hidden `__` table produces a lookup whose target has no load step, and
-`indexed_by_sobject[target_table]` raises `KeyError`.
--/
-theorem mapping_total_refuted :
-    mappingFromRecipe [⟨"A", ["r"], [none]⟩] [⟨"A", "__H", "r"⟩] [] = .error (.keyError "__H") := by
-  decide
-
-/-- **What can go wrong, exactly.** A failure is the recipe error for two record-type columns, or a
-    `KeyError` naming the target of some lookup for which no entry loads that object. -/
+/-- **What can go wrong, exactly** (since fix 7f47b5f): only the documented recipe error for two
+    record-type columns. In particular a lookup into a table without load step never makes the
+    generation fail (before the fix: `KeyError`, D14). -/
 theorem mapping_errors (tables : List TableInfo) (deps : List Dep) (decls : List Decl) (e : Err)
-    (h : mappingFromRecipe tables deps decls = .error e) :
-    (∃ t, e = .multipleRecordTypes t) ∨
-      ∃ order steps ms tgt, preMapping tables deps decls = .ok (order, steps, ms) ∧
-        e = .keyError tgt ∧ tgt ≠ "PersonContact" ∧
-        (∃ p ∈ ms, ∃ l ∈ p.2.lookups, l.table = tgt) ∧ ∀ p ∈ ms, p.2.sfObject ≠ tgt := by
+    (h : mappingFromRecipe tables deps decls = .error e) : ∃ t, e = .multipleRecordTypes t := by
   unfold mappingFromRecipe at h
   cases hp : preMapping tables deps decls with
   | error e' =>
     rw [hp] at h
     simp only [Except.error.injEq] at h
     subst h
-    exact Or.inl (premapping_total tables deps decls e' hp)
+    exact premapping_total tables deps decls e' hp
   | ok v =>
     obtain ⟨order, steps, ms⟩ := v
     rw [hp] at h
-    have h' : addAfterFrom ms 0 ms = .error e := h
-    obtain ⟨p, hpm, lk, hlk, j, hj⟩ := addAfterFrom_error ms ms 0 e h'
-    obtain ⟨he, hne, hnone⟩ := addAfterLookup_error ms j lk e hj
-    refine Or.inr ⟨order, steps, ms, lk.table, rfl, he, hne, ⟨p, hpm, lk, hlk, rfl⟩, ?_⟩
-    rcases hnone with h1 | h1
-    · exact (firstInstance_none ms lk.table).mp h1
-    · exact (lastStepName_none ms lk.table).mp h1
+    simp at h
 
-/-- **Totality under the decidable hypothesis** that every lookup target (other than
-    `PersonContact`) is the object of some entry: then the mapping is generated. -/
-theorem mapping_total_partial (tables : List TableInfo) (deps : List Dep) (decls : List Decl)
-    (order : List String) (steps : List LoadStep) (ms : List (String × Mapping))
-    (hpre : preMapping tables deps decls = .ok (order, steps, ms))
-    (htargets : ∀ p ∈ ms, ∀ l ∈ p.2.lookups,
-      l.table = "PersonContact" ∨ ∃ q ∈ ms, q.2.sfObject = l.table) :
+/-- **Totality (full statement).** For every summary whose tables have at most one record-type
+    column each — whatever the dependencies are, including references into tables that have no load
+    step (hidden `__` tables), cyclic graphs, arbitrary declarations — the mapping is generated. -/
+theorem mapping_total (tables : List TableInfo) (deps : List Dep) (decls : List Decl)
+    (hrt : ∀ t ∈ tables, (t.fields.filter isRecordTypeName).length ≤ 1) :
     ∃ out, mappingFromRecipe tables deps decls = .ok out := by
-  cases hres : mappingFromRecipe tables deps decls with
-  | ok out => exact ⟨out, rfl⟩
-  | error e =>
-    exfalso
-    rcases mapping_errors tables deps decls e hres with ⟨t, he⟩ | ⟨o', s', ms', tgt, hpre', _, hne, ⟨p, hp, l, hl, hlt⟩, hno⟩
-    · -- the pre-mapping succeeded, so the error comes from add_after_statements: a KeyError
-      subst he
-      unfold mappingFromRecipe at hres
-      rw [hpre] at hres
-      have h' : addAfterFrom ms 0 ms = .error (.multipleRecordTypes t) := hres
-      obtain ⟨_, _, lk, _, j, hj⟩ := addAfterFrom_error ms ms 0 _ h'
-      have := (addAfterLookup_error ms j lk _ hj).1
-      exact absurd this (by simp)
-    · rw [hpre] at hpre'
-      simp only [Except.ok.injEq, Prod.mk.injEq] at hpre'
-      obtain ⟨_, _, rfl⟩ := hpre'
-      rcases htargets p hp l hl with h1 | ⟨q, hq, hqs⟩
-      · exact hne (hlt ▸ h1)
-      · exact hno q hq (hlt ▸ hqs)
+  obtain ⟨order, steps, ho, hs⟩ := steps_never_fail tables deps decls
+  have hsteps : ∀ s ∈ steps, (s.fields.filter isRecordTypeName).length ≤ 1 := by
+    intro s hs'
+    obtain ⟨t, ht, k, _, e⟩ := ((steps_cover _ order steps hs).2 s).mp hs'
+    subst e
+    obtain ⟨t0, ht0, _, hsub⟩ := removePersonContactField_fields tables t ht
+    exact Nat.le_trans (hsub.filter _).length_le (hrt t0 ht0)
+  obtain ⟨ms, hm⟩ := mappingsOfSteps_total deps steps steps [] hsteps
+  refine ⟨addAfterStatements ms, ?_⟩
+  unfold mappingFromRecipe preMapping
+  simp only [ho, hs, hm]
 
--- non-vacuity of `mapping_total_partial`'s hypotheses: the example after `after_sound_single`.
+-- the input that used to refute totality (D14: a visible field referencing a hidden table):
+-- the lookup is kept, gets no `after:`, and generation succeeds
+example : mappingFromRecipe [⟨"A", ["r"], [none]⟩] [⟨"A", "__H", "r"⟩] [] =
+    .ok [("Insert A", ⟨"A", "A", [], [⟨"r", "__H", none⟩], none, []⟩)] := by decide
 
 /-! ### continuation -/
 
